@@ -961,6 +961,46 @@ Definition show_result_ix (pop : list pv) (r : res (list pv)) : string :=
   | Raise e => append "EXC " (show_err e)
   end.
 
+(* The order in which os.listdir hands out directory entries is not specified; the harness observes it on
+   the directory it built and passes it in: type directories, their entries, the version files of each id
+   directory, by name.  `reorder_fs` arranges the tree the sink model built in that order (a name that is
+   not there is dropped, and so is an entry that is not named: either shows up as a disagreement).         *)
+Fixpoint pick_named {E} (key : E -> ustring) (es : list E) (names : list ustring) : list E :=
+  match names with
+  | [] => []
+  | n :: r => match find (fun e => ustr_eqb (key e) n) es with
+              | Some e => e :: pick_named key es r
+              | None => pick_named key es r
+              end
+  end.
+
+Definition reorder_entries (es : list tentry) (spec : list (ustring * list ustring)) : list tentry :=
+  flat_map (fun nf => match find (fun e => ustr_eqb (tname e) (fst nf)) es with
+                      | Some (TDir n files) => [TDir n (pick_named fst files (snd nf))]
+                      | Some e => [e]
+                      | None => []
+                      end) spec.
+
+Definition reorder_fs (t : fs) (spec : list (ustring * list (ustring * list ustring))) : fs :=
+  flat_map (fun ds => match find (fun d => ustr_eqb (fst d) (fst ds)) t with
+                      | Some (d, es) => [(d, reorder_entries es (snd ds))]
+                      | None => []
+                      end) spec.
+
+(* short form of a listing in the case files *)
+Definition lspec (l : list (string * list (string * list string))) : list (ustring * list (ustring * list ustring)) :=
+  map (fun d => (u (fst d), map (fun e => (u (fst e), map u (snd e))) (snd d))) l.
+
+(* Does the order of the answers (and which object raises first) depend only on the listing order?
+   A white list with two or more values is walked in the iteration order of a Python set of strings,
+   which the model does not know.                                                                     *)
+Definition order_known (om : opt_mode) (fl : list flt) : bool :=
+  match find_opts om fl with
+  | Ok (Auth w1 v1, Auth w2 v2) =>
+      (negb w1 || Nat.leb (List.length v1) 1) && (negb w2 || Nat.leb (List.length v2) 1)
+  | Raise _ => true
+  end.
+
 (* one query on the routes the harness runs: memory source, filesystem source
    (each optionally wrapped in a CompositeDataSource that carries `comp`), and
    a two-member composite [memory ma; filesystem tb] whose members both carry
@@ -971,9 +1011,11 @@ Definition q_fs (mode : ts_mode) (om : opt_mode) (t : fs) (wrap : bool) (q att c
   if wrap then comp_query mode om [SFs t att] comp q [] else fs_query mode om t q att [].
 Definition show3 (mode : ts_mode) (om : opt_mode) (pop : list pv) (m : list (pv * mem_entry)) (t : fs) (ma : list (pv * mem_entry)) (tb : fs)
            (wrap : bool) (q att comp : list flt) : string :=
-  append (show_result_ix pop (q_mem mode om m wrap q att comp)) (append " ## "
-  (append (show_result_ix pop (q_fs mode om t wrap q att comp)) (append " ## "
-  (show_result_ix pop (comp_query mode om [SMem ma att; SFs tb att] comp q []))))).
+  String.concat " ## "
+    [show_result_ix pop (q_mem mode om m wrap q att comp);
+     show_result_ix pop (q_fs mode om t wrap q att comp);
+     show_result_ix pop (comp_query mode om [SMem ma att; SFs tb att] comp q []);
+     show_bool (order_known om (complete_query q att (if wrap then fset_add (fset_add [] comp) [] else [])))].
 
 (* all_versions(id): memory source and filesystem source with `att` attached; the same two wrapped in a
    CompositeDataSource that carries `comp`; the two-member composite.  One result line. *)
